@@ -267,3 +267,5 @@ func checkChartAnyDecodeOrder(maxLen int, first, second bool) {
 
 func Harness_CHART_order1_len2() { checkChartAnyDecodeOrder(2, true, false) }
 func Harness_CHART_order2_len2() { checkChartAnyDecodeOrder(2, false, true) }
+func Harness_CHART_orderT1_len3() { checkChartAnyDecodeOrder(3, true, false) }
+func Harness_CHART_orderT2_len3() { checkChartAnyDecodeOrder(3, false, true) }
